@@ -52,13 +52,8 @@ def check_entry(run, config, fname, dr, allow_panic_key=None):
             if st == 'sat':
                 confirm_panic(run, config, fname, args, model, r, dr)
             continue
-        pairs = [(r.mem(r.named['out']), exp_out), (r.mem(r.named['pout']), exp_p)]
-        # per-word pairs make the evidence counts and counterexamples sharper
-        wp = []
-        for g, e in pairs:
-            for i in range(T.width(g) // 32):
-                wp.append((T.extract(g, 32 * i, 32), T.extract(e, 32 * i, 32)))
-        ob = run.equal(name, wp, r.pc, timeout_s=300 if run.tier == 'thorough' else 120)
+        got = T.concat([r.mem(r.named['out']), r.mem(r.named['pout'])])
+        ob = run.equal_spec(name, got, lambda: T.concat(list(expected(nblk, dr))), r.pc, timeout_s=300 if run.tier == 'thorough' else 120)
         if ob.status == 'sat':
             confirm_mismatch(run, config, fname, args, ob, r, exp_out, exp_p, dr)
     return res, ex
@@ -74,6 +69,10 @@ def confirm_mismatch(run, config, fname, args, ob, r, exp_out, exp_p, dr):
     key = '%s:mismatch:%s:%s' % (fname, 'portable' if 'nosimd' in config else 'x86', arm_name(r.pc))
     what = '%s differs from the reference block function (config %s, dr=%d, arm %s)' % (fname, config, dr, arm_name(r.pc))
     confirm(run, config, fname, args, ob.model, key, what, exp={'out': exp_out, 'pout': exp_p})
+
+
+def _task(sub, t):
+    check_entry(sub, *t)
 
 
 def canaries(run):
@@ -105,15 +104,12 @@ def body(run, a):
     configs = ['release-std', 'release-nosimd']
     if run.tier == 'thorough':
         configs += ['release-nostd-sse2', 'release-nostd-ssse3', 'release-nostd-sse41', 'release-nostd-avx', 'release-nostd-avx2']
-    for config in configs:
-        for fname in ENTRIES:
-            for dr in drs:
-                check_entry(run, config, fname, dr)
+    tasks = [(config, fname, dr) for config in configs for fname in ENTRIES for dr in drs]
     # overflow-checked profile: is a panic reachable? (counter within 4 of 2^64)
-    for config in ['devchk-std', 'devchk-nosimd']:
-        for fname in ENTRIES:
-            for dr in ([0, 10] if run.tier == 'quick' else drs):
-                check_entry(run, config, fname, dr)
+    tasks += [(config, fname, dr) for config in ['devchk-std', 'devchk-nosimd'] for fname in ENTRIES for dr in ([0, 10] if run.tier == 'quick' else drs)]
+    for c in sorted({t[0] for t in tasks}):
+        module(c, run)
+    check.parallel(run, _task, tasks)
     canaries(run)
     run.bounds = {'drounds': '0..=10 (each a separate query; loop count is concrete)', 'key/nonce/counter': 'all values (symbolic)',
                   'cpu feature word': 'symbolic 63 bits (every dispatcher arm explored from the real dispatcher)',
